@@ -119,8 +119,9 @@ class LinearAlgebraMethods(object):
         if not A.rows == A.cols:
             raise ValueError('need n*n matrix')
         # get from cache if possible
-        if use_cache and isinstance(A, ctx.matrix) and A._LU and \
-                A._LU_prec >= ctx.prec:
+        # (not with overwrite: A itself has to receive the factors)
+        if use_cache and not overwrite and isinstance(A, ctx.matrix) and \
+                A._LU and A._LU_prec >= ctx.prec:
             # (a copy: the caller may modify what it is given)
             LU, p = A._LU
             return LU.copy(), p[:]
